@@ -29,6 +29,8 @@ import os
 import pickle
 import posixpath
 import shutil
+import sys
+import time
 import tempfile
 from urllib.parse import urljoin
 
@@ -1429,14 +1431,143 @@ class Watchdog(object):
         return False
 
 
-def confirmed_runaway(L, policy, fault):
-    """Repeat (without a cache) a load the watchdog stopped."""
+LOAD_CPU = [10]          # CPU seconds one client construction may use (normal: ~0.01 s)
+LOAD_MEM = 1 << 30       # address space one layout's loads may add to the process (bytes)
+LAYOUT_WALL = 300        # wall seconds after which a layout's child process is given up (no verdict)
+
+
+def guarded_load(docs, in_store, root, policy=0, cache=None, fault=None):
+    """load_client under the CPU-time watchdog; running out of memory (the
+    process is under an address-space limit) is a result too."""
     try:
-        with Watchdog(60):
-            r = load_client(L.docs, L.in_store, L.root, policy=policy, cache=None, fault=fault)
-    except Watchdog.Timeout:
-        return True
-    return r.runaway or isinstance(r.exc, (Watchdog.Timeout, RecursionError))
+        with Watchdog(LOAD_CPU[0]):
+            return load_client(docs, in_store, root, policy=policy, cache=cache, fault=fault)
+    except (Watchdog.Timeout, MemoryError, RecursionError) as e:
+        r = LoadResult()
+        r.client, r.exc, r.events, r.fired, r.failed, r.runaway = None, e, [], False, False, True
+        return r
+
+
+def is_runaway(r):
+    return bool(r.runaway) or isinstance(r.exc, (Watchdog.Timeout, MemoryError, RecursionError))
+
+
+def exc_text(e):
+    return None if e is None else "%s: %s" % (type(e).__name__, str(e)[:300])
+
+
+def layout_job(L, idx, tier, tmp, send):
+    """Everything the check does with the implementation for one layout:
+    the single-document client, a cache-less probe load, the scenarios of both
+    caching policies.  Results are sent one by one so that the parent knows
+    where a process that dies was."""
+    rs = guarded_load({"mem://single.wsdl": L.single}, [], "mem://single.wsdl")
+    try:
+        if rs.exc is not None:
+            raise rs.exc
+        single_fp = fp_digest(fingerprint(rs.client))
+    except Exception as e:          # noqa -- never on the unchanged tree
+        send(("single-fails", exc_text(e)))
+        return
+    send(("single", single_fp))
+    probe = guarded_load(L.docs, L.in_store, L.root)
+    send(("probe", is_runaway(probe), exc_text(probe.exc), probe.events))
+    if is_runaway(probe):
+        return
+    nfetch = sum(1 for k, _ in probe.events if k == "S")
+    for policy in (0, 1):
+        steps = steps_for(tier, nfetch, policy, idx, probe.exc is None, L)
+        sub = os.path.join(tmp, "l%d_%d" % (idx, policy))
+        os.makedirs(sub)
+        send(("steps", policy, steps))
+        obs = run_scenario(L, policy, steps, "doc" if idx % 2 == 0 else "obj", sub)
+        for o in obs:
+            o.exc = exc_text(o.exc)
+            o.fpfull = None
+        send(("obs", policy, obs))
+        shutil.rmtree(sub, ignore_errors=True)
+        if any(o.klass == 3 for o in obs):
+            return
+    send(("done",))
+
+
+def run_layout(L, idx, tier, tmp):
+    """layout_job in a forked child under resource limits.  Returns the list
+    of messages received and how the child ended: 'done' | 'stopped' (it
+    reported a runaway load itself) | 'died' (killed by a limit) | 'stalled'."""
+    import select
+    import signal
+    rfd, wfd = os.pipe()
+    sys.stdout.flush()
+    pid = os.fork()
+    if pid == 0:
+        code = 0
+        try:
+            os.close(rfd)
+            try:
+                import resource
+                with open("/proc/self/statm") as f:
+                    vm = int(f.read().split()[0]) * os.sysconf("SC_PAGE_SIZE")
+                soft, hard = resource.getrlimit(resource.RLIMIT_AS)
+                lim = vm + LOAD_MEM
+                if hard != resource.RLIM_INFINITY:
+                    lim = min(lim, hard)
+                resource.setrlimit(resource.RLIMIT_AS, (lim, hard))
+                cpu = int(resource.getrusage(resource.RUSAGE_SELF).ru_utime
+                          + resource.getrusage(resource.RUSAGE_SELF).ru_stime) + 40 * LOAD_CPU[0] + 60
+                resource.setrlimit(resource.RLIMIT_CPU, (cpu, cpu + 5))      # backstop
+            except (ImportError, ValueError, OSError):
+                pass
+            out = os.fdopen(wfd, "wb")
+
+            def send(msg):
+                pickle.dump(msg, out, 2)
+                out.flush()
+            layout_job(L, idx, tier, tmp, send)
+            out.close()
+        except BaseException:       # noqa -- the parent sees an incomplete message stream
+            code = 1
+        finally:
+            os._exit(code)
+    os.close(wfd)
+    msgs = []
+    inp = os.fdopen(rfd, "rb")
+    t_end = time.time() + LAYOUT_WALL
+    how = "died"
+    try:
+        while True:
+            left = t_end - time.time()
+            if left <= 0:
+                how = "stalled"
+                break
+            ready, _, _ = select.select([inp], [], [], min(left, 5.0))
+            if not ready:
+                continue
+            try:
+                msg = pickle.load(inp)
+            except (EOFError, pickle.UnpicklingError, MemoryError):
+                break
+            msgs.append(msg)
+            if msg[0] == "done":
+                how = "done"
+                break
+    finally:
+        if how == "stalled":
+            try:
+                os.kill(pid, signal.SIGKILL)
+            except OSError:
+                pass
+        inp.close()
+        try:
+            os.waitpid(pid, 0)
+        except OSError:
+            pass
+    if how == "died" and msgs:
+        last = msgs[-1]
+        if last[0] == "single-fails" or (last[0] == "probe" and last[1]) or \
+                (last[0] == "obs" and any(o.klass == 3 for o in last[2])):
+            how = "stopped"
+    return msgs, how
 
 
 def run_scenario(L, policy, steps, cache_kind, tmp):
@@ -1460,18 +1591,10 @@ def run_scenario(L, policy, steps, cache_kind, tmp):
             cache = suds.cache.ObjectCache(location=cache_dir)
         o = Obs()
         o.fresh, o.fault = fresh, fault
-        try:
-            with Watchdog(30):
-                r = load_client(L.docs, L.in_store, L.root, policy=policy, cache=cache, fault=fault)
-        except Watchdog.Timeout as e:
-            r = LoadResult()
-            r.client, r.exc, r.events, r.fired, r.failed, r.runaway = None, e, [], False, False, True
-        if isinstance(r.exc, Watchdog.Timeout) and not confirmed_runaway(L, policy, fault):
-            raise RuntimeError("C12 harness: a load was stopped by the watchdog but finishes when repeated "
-                               "(machine too busy?) -- no verdict")
+        r = guarded_load(L.docs, L.in_store, L.root, policy=policy, cache=cache, fault=fault)
         o.exc = r.exc
         o.klass = r.klass()
-        if r.runaway or isinstance(r.exc, (Watchdog.Timeout, RecursionError)):
+        if is_runaway(r):
             o.klass = 3
         o.events = r.events
         o.fired = r.fired
@@ -1482,7 +1605,7 @@ def run_scenario(L, policy, steps, cache_kind, tmp):
             except Exception:        # noqa
                 o.tables = ([("?", "tables raise", None)], [])
             try:
-                with Watchdog(30):
+                with Watchdog(LOAD_CPU[0]):
                     o.fpfull = fingerprint(r.client)
                 o.fp = fp_digest(o.fpfull)
             except Exception as e:   # noqa
@@ -1495,6 +1618,8 @@ def run_scenario(L, policy, steps, cache_kind, tmp):
         o.dcache, o.ocache, o.complete = inspect_cache(cache_dir, L.docs, md5,
                                                        not (cache_kind == "doc" and policy == 0))
         out.append(o)
+        if o.klass == 3:
+            break                   # the process may be short of memory: report and stop
     return out
 
 
@@ -1650,7 +1775,7 @@ def layouts_for(ck):
     return out
 
 
-def steps_for(ck, nfetch, policy, idx, clean_ok, L=None):
+def steps_for(tier, nfetch, policy, idx, clean_ok, L=None):
     steps = [(True, None)]
     if policy == 0:
         steps.append((False, None))            # reload from the warm document cache
@@ -1658,10 +1783,10 @@ def steps_for(ck, nfetch, policy, idx, clean_ok, L=None):
         return steps
     kinds = ("raise", "garbage")
     big_graph = L is not None and L.kind == "graph" and len(L.docs) >= 3
-    if ck.tier == "thorough" and big_graph and policy != idx % 2:
+    if tier == "thorough" and big_graph and policy != idx % 2:
         return steps          # all 3-document graphs: every fault point under one policy each
     for k in range(nfetch):
-        if ck.tier == "thorough" and not big_graph:
+        if tier == "thorough" and not big_graph:
             ks = kinds
         else:
             ks = (kinds[(k + policy + idx) % 2],)
@@ -1719,48 +1844,65 @@ def run(ck):
         layouts = layouts_for(ck)
         for idx, L in enumerate(layouts):
             pdocs = {u: parse_doc(d) for u, d in L.docs.items()}
-            rs = load_client({"mem://single.wsdl": L.single}, [], "mem://single.wsdl")
-            try:
-                if rs.exc is not None:
-                    raise rs.exc
-                single_fp = fp_digest(fingerprint(rs.client))
-            except Exception as e:      # noqa -- never on the unchanged tree
+            msgs, how = run_layout(L, idx, ck.tier, tmp)
+            if how == "stalled":
+                raise RuntimeError("C12 harness: the loads of one layout did not finish within %d s of wall "
+                                   "time without exceeding their CPU or memory limits (machine too busy?) -- "
+                                   "no verdict [%s]" % (LAYOUT_WALL, L.desc))
+            got = dict((m[0], m) for m in msgs if m[0] in ("single", "single-fails", "probe"))
+            if "single-fails" in got or "single" not in got:
                 ck.unproved("the single-document WSDL the partitions are compared with does not load or "
-                            "cannot be inspected: %r" % (e,), dict(L.payload(), policy=0))
+                            "cannot be inspected: %s" % (got.get("single-fails", ("", "the process died"))[1],),
+                            dict(L.payload(), policy=0))
                 continue
-            try:
-                with Watchdog(30):
-                    probe = load_client(L.docs, L.in_store, L.root)
-            except Watchdog.Timeout as e:
-                probe = LoadResult()
-                probe.client, probe.exc, probe.events, probe.runaway = None, e, [], True
-            if isinstance(probe.exc, Watchdog.Timeout) and not confirmed_runaway(L, 0, None):
-                raise RuntimeError("C12 harness: a load was stopped by the watchdog but finishes when "
-                                   "repeated (machine too busy?) -- no verdict")
-            if probe.runaway or isinstance(probe.exc, (Watchdog.Timeout, RecursionError)):
-                ck.seen((L.desc, idx, "probe"), nontrivial=len(L.docs) > 1)
-                ck.failing_input("C12:load-does-not-terminate",
-                                 "a document graph makes the load run away (%r) [%s]" % (probe.exc, L.desc),
-                                 dict(L.payload(), policy=0))
-                continue
-            nfetch = sum(1 for k, _ in probe.events if k == "S")
-            for policy in (0, 1):
-                steps = steps_for(ck, nfetch, policy, idx, probe.exc is None, L)
-                sub = os.path.join(tmp, "l%d_%d" % (idx, policy))
-                os.makedirs(sub)
-                obs = run_scenario(L, policy, steps, "doc" if idx % 2 == 0 else "obj", sub)
-                shutil.rmtree(sub, ignore_errors=True)
-                cases.append(c_case(L, pdocs, policy, obs, single_fp))
-                meta.append((L, policy, obs))
+            single_fp = got["single"][1]
+            runaway = None          # (policy, fault, what)
+            if "probe" not in got:
+                runaway = (0, None, "the process loading it was killed by its CPU/memory limit")
+            elif got["probe"][1]:
+                runaway = (0, None, got["probe"][2])
+            steps_seen = {}
+            for m in msgs:
+                if m[0] == "steps":
+                    steps_seen[m[1]] = m[2]
+            done_pol = set()
+            for m in msgs:
+                if m[0] != "obs":
+                    continue
+                policy, obs = m[1], m[2]
+                done_pol.add(policy)
+                bad = [o for o in obs if o.klass == 3]
+                if bad:
+                    runaway = runaway or (policy, bad[0].fault, bad[0].exc)
+                    obs = [o for o in obs if o.klass != 3]
                 for o in obs:
                     ck.seen((L.desc, idx, policy, o.fresh, o.fault), nontrivial=len(L.docs) > 1)
-                    if o.klass == 3:
-                        ck.failing_input("C12:load-does-not-terminate",
-                                         "a document graph makes the load run away (%r)" % (o.exc,),
-                                         dict(L.payload(), policy=policy, fault=o.fault))
+                if obs and not bad:
+                    cases.append(c_case(L, pdocs, policy, obs, single_fp))
+                    meta.append((L, policy, obs))
                 ck.count("%s/%d docs" % (L.kind, len(L.docs)))
                 ck.count("loads", len(obs))
                 ck.count("fault injections", sum(1 for o in obs if o.fault))
+            if runaway is None and how != "done":
+                # died inside a scenario: the steps were announced, the observations never came
+                pol = [p for p in sorted(steps_seen) if p not in done_pol]
+                runaway = (pol[0] if pol else 0, None,
+                           "the process loading it was killed by its CPU/memory limit")
+            if runaway is not None:
+                ck.seen((L.desc, idx, "runaway"), nontrivial=len(L.docs) > 1)
+                ck.count("loads that do not finish")
+                ck.failing_input("C12:load-does-not-terminate",
+                                 "constructing the client does not finish within %d s of CPU time / %d MB of "
+                                 "additional memory (%s) [%s; policy %d]"
+                                 % (LOAD_CPU[0], LOAD_MEM >> 20, runaway[2], L.desc, runaway[0]),
+                                 dict(L.payload(), policy=runaway[0],
+                                      steps=[(True, runaway[1])]))
+                LOAD_CPU[0] = min(LOAD_CPU[0], 2)       # the verdict is in: keep the rest of the run short
+                continue
+            if idx % 40 == 0 and "probe" in got:
+                ck.sample({"layout": L.desc, "documents": sorted(L.docs), "in_store": sorted(L.in_store),
+                           "requests": got["probe"][3][:12],
+                           "fetches": sum(1 for k, _ in got["probe"][3] if k == "S")})
             for k, v in L.shape.items():
                 if v is True:
                     ck.count("shape:" + k)
@@ -1768,9 +1910,6 @@ def run(ck):
                 import gc
                 gc.collect()
                 gc.freeze()         # what is kept for the verdict is not rescanned by later collections
-            if idx % 40 == 0:
-                ck.sample({"layout": L.desc, "documents": sorted(L.docs), "in_store": sorted(L.in_store),
-                           "requests": probe.events[:12], "fetches": nfetch})
     finally:
         shutil.rmtree(tmp, ignore_errors=True)
     res = ck.run_cases("corr", PRE, "case", cases, PREDS, shard=60)
